@@ -3,7 +3,11 @@
    over the Section variables curated / word_id / raw_lints / ctx, which appear here as universally
    quantified parameters) and Model/LintJson.v (serde_json text of Span / Suggestion / Lint). *)
 From Coq Require Import String.
+Require Import Ignore IgnoreProofs.
 Require Import Base Overlap Suggestion LintJson Wasm ListLemmas OverlapProofs SuggestionProofs WasmProofs LintJsonProofs Tables_wasmapi WasmTables.
+Require Import C16Ctx C16CtxProofs.
+Require JsonEscape Stats.
+Require Import C16Api C16ApiProofs Tables_wasmsurface C16Surface.
 From Coq Require Import List Sorting.Sorted Sorting.Permutation.
 
 (* lint, any state, any text: when the rules' lints lie inside the text (C03's business, monitored), the answer exists (no panic while slicing the problem text), every returned lint lies inside the text, is one of the rules' lints, carries exactly the characters at its span and the language of the call, and no two returned lints share a character (C13 lifted through the wrapper) *)
@@ -86,8 +90,8 @@ Check C16_ignore :
   /\ s_stats st' = s_stats st /\ s_dialect st' = s_dialect st.
 Print Assumptions C16_ignore.
 
-(* an ignored lint stays away, full strength (C16-N1 repaired by 483b7cf): GIVEN that the context hash of a lint is the same under every user dictionary (ctx_ignores_dict — LintContext::from_lint blanks the word metadata, C16_context_shape; monitored on the real code), after ignore_lint, whatever is called in between (import_words, set_lint_config, imports, other ignores ...) until clear_ignored_lints: no later answer on any text contains a lint with the ignored context, and no later answer on the same text and language contains the ignored lint *)
-Theorem C16_ignore_persistent :
+(* an ignored lint stays away, for ANY context function (the abstract form; C16_ignore_persistent below instantiates the context with the model of LintContext::from_lint and has no such premise): GIVEN that the context hash of a lint is the same under every user dictionary (ctx_ignores_dict), after ignore_lint, whatever is called in between (import_words, set_lint_config, imports, other ignores ...) until clear_ignored_lints: no later answer on any text contains a lint with the ignored context, and no later answer on the same text and language contains the ignored lint *)
+Theorem C16_ignore_persistent_any_context :
   forall (curated : config) (word_id : text -> N) (raw_lints : text -> language -> config -> dict -> nat -> list rlint) (ctx : rlint -> text -> language -> dict -> N) st t l cs t2 lang2 ls,
   ctx_ignores_dict ctx ->
   Forall (fun c => c <> CClearIgnored) cs ->
@@ -97,7 +101,7 @@ Theorem C16_ignore_persistent :
   Forall (fun w => (forall d d', ctx (winner w) t2 lang2 d <> ctx (winner l) t (wlang l) d')
                    /\ (t2 = t -> lang2 = wlang l -> winner w <> winner l)) ls.
 Proof. exact ignore_persistent_full. Qed.
-Check C16_ignore_persistent :
+Check C16_ignore_persistent_any_context :
   forall (curated : config) (word_id : text -> N) (raw_lints : text -> language -> config -> dict -> nat -> list rlint) (ctx : rlint -> text -> language -> dict -> N) st t l cs t2 lang2 ls,
   ctx_ignores_dict ctx ->
   Forall (fun c => c <> CClearIgnored) cs ->
@@ -105,6 +109,78 @@ Check C16_ignore_persistent :
   let st2 := fst (run curated word_id raw_lints ctx st1 cs) in
   api_lint curated raw_lints ctx st2 t2 lang2 = Ok ls ->
   Forall (fun w => (forall d d', ctx (winner w) t2 lang2 d <> ctx (winner l) t (wlang l) d')
+                   /\ (t2 = t -> lang2 = wlang l -> winner w <> winner l)) ls.
+Print Assumptions C16_ignore_persistent_any_context.
+
+(* the Document model behind the context (Model/C16Ctx.v: the token sequence of parser + the passes of Document::parse that run without a dictionary, then the metadata loop): whatever the dictionary, the document of a text has that text as source and is the dictionary-free token sequence up to the metadata of word tokens — same spans, same kinds, same quote partners.  'The dictionary only sets word metadata.' *)
+Theorem C16_document_dictionary_sets_metadata_only :
+  forall (pre_tokens : text -> language -> list token) (word_meta : dict -> text -> option N) t lang d dc,
+  document pre_tokens word_meta t lang d = Ok dc ->
+  dsrc dc = t /\ blank_doc dc = blank_doc (mkdoc t (pre_tokens t lang))
+  /\ map tspan (dtoks dc) = map tspan (pre_tokens t lang).
+Proof. exact document_is_pre_tokens_up_to_metadata. Qed.
+Check C16_document_dictionary_sets_metadata_only :
+  forall (pre_tokens : text -> language -> list token) (word_meta : dict -> text -> option N) t lang d dc,
+  document pre_tokens word_meta t lang d = Ok dc ->
+  dsrc dc = t /\ blank_doc dc = blank_doc (mkdoc t (pre_tokens t lang))
+  /\ map tspan (dtoks dc) = map tspan (pre_tokens t lang).
+Print Assumptions C16_document_dictionary_sets_metadata_only.
+
+(* ctx_ignores_dict DISCHARGED: with the context of Model/Ignore.v (C14's model of LintContext::from_lint, which blanks word metadata since 483b7cf) over that Document model, the context of a lint on a text — the LintContext value, its hash under any hash function, and the total function Wasm.v's `ctx` is instantiated with — is the same under every user dictionary (a panic included: the same panic) *)
+Theorem C16_context_ignores_dictionary :
+  forall (pre_tokens : text -> language -> list token) (word_meta : dict -> text -> option N) (hash : Ignore.ctx -> N),
+  (forall l t lang d d', context_of pre_tokens word_meta l t lang d = context_of pre_tokens word_meta l t lang d')
+  /\ (forall l t lang d d', hash_of pre_tokens word_meta hash l t lang d = hash_of pre_tokens word_meta hash l t lang d')
+  /\ ctx_ignores_dict (ctx_inst pre_tokens word_meta hash).
+Proof. exact context_ignores_dictionary. Qed.
+Check C16_context_ignores_dictionary :
+  forall (pre_tokens : text -> language -> list token) (word_meta : dict -> text -> option N) (hash : Ignore.ctx -> N),
+  (forall l t lang d d', context_of pre_tokens word_meta l t lang d = context_of pre_tokens word_meta l t lang d')
+  /\ (forall l t lang d d', hash_of pre_tokens word_meta hash l t lang d = hash_of pre_tokens word_meta hash l t lang d')
+  /\ ctx_ignores_dict (ctx_inst pre_tokens word_meta hash).
+Print Assumptions C16_context_ignores_dictionary.
+
+(* ... and on well-formed token sequences (every token inside the text: C02) building the document and the context does not panic, and the instance is the hash of the LintContext *)
+Theorem C16_context_total :
+  forall (pre_tokens : text -> language -> list token) (word_meta : dict -> text -> option N) (hash : Ignore.ctx -> N) l t lang d,
+  (forall t lang, Forall (fun tok => span_in (length t) (tspan tok)) (pre_tokens t lang)) ->
+  exists c, context_of pre_tokens word_meta l t lang d = Ok c
+            /\ hash_of pre_tokens word_meta hash l t lang d = Ok (hash c)
+            /\ ctx_inst pre_tokens word_meta hash l t lang d = hash c.
+Proof. exact context_of_total. Qed.
+Check C16_context_total :
+  forall (pre_tokens : text -> language -> list token) (word_meta : dict -> text -> option N) (hash : Ignore.ctx -> N) l t lang d,
+  (forall t lang, Forall (fun tok => span_in (length t) (tspan tok)) (pre_tokens t lang)) ->
+  exists c, context_of pre_tokens word_meta l t lang d = Ok c
+            /\ hash_of pre_tokens word_meta hash l t lang d = Ok (hash c)
+            /\ ctx_inst pre_tokens word_meta hash l t lang d = hash c.
+Print Assumptions C16_context_total.
+
+(* an ignored lint stays away, full strength, NO premise about the dictionary: with `ctx` instantiated as above, after ignore_lint, whatever is called in between (import_words, set_lint_config, imports, other ignores ...) until clear_ignored_lints, under any hash function: no later answer on any text contains a lint with the ignored context hash, nor one with the ignored LintContext (under any dictionaries), and no later answer on the same text and language contains the ignored lint *)
+Theorem C16_ignore_persistent :
+  forall (curated : config) (word_id : text -> N) (raw_lints : text -> language -> config -> dict -> nat -> list rlint)
+         (pre_tokens : text -> language -> list token) (word_meta : dict -> text -> option N) (hash : Ignore.ctx -> N) st t l cs t2 lang2 ls,
+  let ctx := ctx_inst pre_tokens word_meta hash in
+  Forall (fun c => c <> CClearIgnored) cs ->
+  let st1 := fst (step curated word_id raw_lints ctx st (CIgnore t l)) in
+  let st2 := fst (run curated word_id raw_lints ctx st1 cs) in
+  api_lint curated raw_lints ctx st2 t2 lang2 = Ok ls ->
+  Forall (fun w => (forall d d', ctx (winner w) t2 lang2 d <> ctx (winner l) t (wlang l) d')
+                   /\ (forall d d', context_of pre_tokens word_meta (winner w) t2 lang2 d
+                                    <> context_of pre_tokens word_meta (winner l) t (wlang l) d')
+                   /\ (t2 = t -> lang2 = wlang l -> winner w <> winner l)) ls.
+Proof. exact ignore_persistent_closed. Qed.
+Check C16_ignore_persistent :
+  forall (curated : config) (word_id : text -> N) (raw_lints : text -> language -> config -> dict -> nat -> list rlint)
+         (pre_tokens : text -> language -> list token) (word_meta : dict -> text -> option N) (hash : Ignore.ctx -> N) st t l cs t2 lang2 ls,
+  let ctx := ctx_inst pre_tokens word_meta hash in
+  Forall (fun c => c <> CClearIgnored) cs ->
+  let st1 := fst (step curated word_id raw_lints ctx st (CIgnore t l)) in
+  let st2 := fst (run curated word_id raw_lints ctx st1 cs) in
+  api_lint curated raw_lints ctx st2 t2 lang2 = Ok ls ->
+  Forall (fun w => (forall d d', ctx (winner w) t2 lang2 d <> ctx (winner l) t (wlang l) d')
+                   /\ (forall d d', context_of pre_tokens word_meta (winner w) t2 lang2 d
+                                    <> context_of pre_tokens word_meta (winner l) t (wlang l) d')
                    /\ (t2 = t -> lang2 = wlang l -> winner w <> winner l)) ls.
 Print Assumptions C16_ignore_persistent.
 
@@ -340,6 +416,180 @@ Check C16_import_words_keeps_config :
   /\ (a = b \/ (b = Some None /\ aget k curated = None /\ a = None)).
 Print Assumptions C16_import_words_keeps_config.
 
+(* the whole export list of harper-wasm (GENERATED from harper-wasm/src/lib.rs on every run) is accounted for, function by function, in C16Surface.api_classification: modelled (entry named), projection of a modelled value, or outside the model with the reason; outside are exactly the seven named here (JsValue in or out, the console setup, the constant rule descriptions).  A new export breaks this theorem. *)
+Theorem C16_api_coverage :
+  wasm_exported_functions = map fst api_classification
+  /\ map fst (filter (fun e => is_outside (snd e)) api_classification)
+     = ["setup"; "Linter::get_lint_descriptions_as_json"; "Linter::summarize_stats";
+        "Linter::get_lint_descriptions_as_object"; "Linter::get_lint_config_as_object";
+        "Linter::set_lint_config_from_object"; "get_default_lint_config"].
+Proof. exact api_coverage. Qed.
+Check C16_api_coverage :
+  wasm_exported_functions = map fst api_classification
+  /\ map fst (filter (fun e => is_outside (snd e)) api_classification)
+     = ["setup"; "Linter::get_lint_descriptions_as_json"; "Linter::summarize_stats";
+        "Linter::get_lint_descriptions_as_object"; "Linter::get_lint_config_as_object";
+        "Linter::set_lint_config_from_object"; "get_default_lint_config"].
+Print Assumptions C16_api_coverage.
+
+(* the exports modelled as compositions in Model/C16Api.v still have the bodies transcribed there (to_title_case = make_title_case_str with PlainEnglish and the curated dictionary; is_likely_english / isolate_english on self.dictionary; get_default_lint_config_as_json = the curated LintGroup's config; generate/import_stats_file = Stats::write / Stats::read + append) *)
+Theorem C16_api_bodies :
+  wasm_body_to_title_case = "harper_core::make_title_case_str(&text, &PlainEnglish, &FstDictionary::curated())"
+  /\ wasm_body_is_likely_english = "let document = Document::new_plain_english(&text, &self.dictionary); is_doc_likely_english(&document, &self.dictionary)"
+  /\ wasm_body_isolate_english = "let document = Document::new( &text, &IsolateEnglish::new(Box::new(PlainEnglish), self.dictionary.clone()), &self.dictionary, ); document.to_string()"
+  /\ wasm_body_get_default_lint_config_as_json = "let config = LintGroup::new_curated(MutableDictionary::new().into(), Dialect::American.into()).config; serde_json::to_string(&config).unwrap()"
+  /\ wasm_body_generate_stats_file = "let mut output = Vec::new(); self.stats.write(&mut output).unwrap(); String::from_utf8(output).unwrap()"
+  /\ wasm_body_import_stats_file = "let data = file.as_bytes(); let mut read = Cursor::new(data); let mut new_stats = Stats::read(&mut read).map_err(|err| err.to_string())?; self.stats.records.append(&mut new_stats.records); Ok(())"
+  /\ wasm_body_get_lint_config_as_json = "serde_json::to_string(&self.lint_group.config).unwrap()".
+Proof. exact api_bodies. Qed.
+Check C16_api_bodies :
+  wasm_body_to_title_case = "harper_core::make_title_case_str(&text, &PlainEnglish, &FstDictionary::curated())"
+  /\ wasm_body_is_likely_english = "let document = Document::new_plain_english(&text, &self.dictionary); is_doc_likely_english(&document, &self.dictionary)"
+  /\ wasm_body_isolate_english = "let document = Document::new( &text, &IsolateEnglish::new(Box::new(PlainEnglish), self.dictionary.clone()), &self.dictionary, ); document.to_string()"
+  /\ wasm_body_get_default_lint_config_as_json = "let config = LintGroup::new_curated(MutableDictionary::new().into(), Dialect::American.into()).config; serde_json::to_string(&config).unwrap()"
+  /\ wasm_body_generate_stats_file = "let mut output = Vec::new(); self.stats.write(&mut output).unwrap(); String::from_utf8(output).unwrap()"
+  /\ wasm_body_import_stats_file = "let data = file.as_bytes(); let mut read = Cursor::new(data); let mut new_stats = Stats::read(&mut read).map_err(|err| err.to_string())?; self.stats.records.append(&mut new_stats.records); Ok(())"
+  /\ wasm_body_get_lint_config_as_json = "serde_json::to_string(&self.lint_group.config).unwrap()".
+Print Assumptions C16_api_bodies.
+
+(* frame: to_title_case, is_likely_english, isolate_english, get_default_lint_config_as_json, generate_stats_file leave the linter as it is; import_stats_file changes the statistics only; a call of Model/Wasm.v is that call *)
+Theorem C16_api_frame :
+  forall (curated : config) (word_id : text -> N) (raw_lints : text -> language -> config -> dict -> nat -> list rlint) (ctx : rlint -> text -> language -> dict -> N)
+         (title_case : text -> text) (likely_english : text -> dict -> bool) (isolate : text -> dict -> text) (ser : stat_record -> JsonEscape.bytes) (de : JsonEscape.bytes -> option stat_record) st c,
+  match c with
+  | XBase b => fst (xstep curated word_id raw_lints ctx title_case likely_english isolate ser de st c) = fst (step curated word_id raw_lints ctx st b)
+               /\ snd (xstep curated word_id raw_lints ctx title_case likely_english isolate ser de st c) = XOut (snd (step curated word_id raw_lints ctx st b))
+  | XImportStats f => same_but_stats (fst (xstep curated word_id raw_lints ctx title_case likely_english isolate ser de st c)) st
+  | _ => fst (xstep curated word_id raw_lints ctx title_case likely_english isolate ser de st c) = st
+  end.
+Proof. exact xstep_frame. Qed.
+Check C16_api_frame :
+  forall (curated : config) (word_id : text -> N) (raw_lints : text -> language -> config -> dict -> nat -> list rlint) (ctx : rlint -> text -> language -> dict -> N)
+         (title_case : text -> text) (likely_english : text -> dict -> bool) (isolate : text -> dict -> text) (ser : stat_record -> JsonEscape.bytes) (de : JsonEscape.bytes -> option stat_record) st c,
+  match c with
+  | XBase b => fst (xstep curated word_id raw_lints ctx title_case likely_english isolate ser de st c) = fst (step curated word_id raw_lints ctx st b)
+               /\ snd (xstep curated word_id raw_lints ctx title_case likely_english isolate ser de st c) = XOut (snd (step curated word_id raw_lints ctx st b))
+  | XImportStats f => same_but_stats (fst (xstep curated word_id raw_lints ctx title_case likely_english isolate ser de st c)) st
+  | _ => fst (xstep curated word_id raw_lints ctx title_case likely_english isolate ser de st c) = st
+  end.
+Print Assumptions C16_api_frame.
+
+(* composition: a history over the WHOLE modelled API and the history of its Model/Wasm.v calls alone end in linters that differ at most in their statistics, lint every text alike and export the same words — every theorem above about `run` therefore speaks about histories with the other exports interleaved *)
+Theorem C16_api_histories :
+  forall (curated : config) (word_id : text -> N) (raw_lints : text -> language -> config -> dict -> nat -> list rlint) (ctx : rlint -> text -> language -> dict -> N)
+         (title_case : text -> text) (likely_english : text -> dict -> bool) (isolate : text -> dict -> text) (ser : stat_record -> JsonEscape.bytes) (de : JsonEscape.bytes -> option stat_record) cs st,
+  let a := fst (xrun curated word_id raw_lints ctx title_case likely_english isolate ser de st cs) in
+  let b := fst (run curated word_id raw_lints ctx st (base_calls cs)) in
+  same_but_stats a b
+  /\ (forall t lang, api_lint curated raw_lints ctx a t lang = api_lint curated raw_lints ctx b t lang)
+  /\ export_words a = export_words b.
+Proof. exact xrun_lints_as_run. Qed.
+Check C16_api_histories :
+  forall (curated : config) (word_id : text -> N) (raw_lints : text -> language -> config -> dict -> nat -> list rlint) (ctx : rlint -> text -> language -> dict -> N)
+         (title_case : text -> text) (likely_english : text -> dict -> bool) (isolate : text -> dict -> text) (ser : stat_record -> JsonEscape.bytes) (de : JsonEscape.bytes -> option stat_record) cs st,
+  let a := fst (xrun curated word_id raw_lints ctx title_case likely_english isolate ser de st cs) in
+  let b := fst (run curated word_id raw_lints ctx st (base_calls cs)) in
+  same_but_stats a b
+  /\ (forall t lang, api_lint curated raw_lints ctx a t lang = api_lint curated raw_lints ctx b t lang)
+  /\ export_words a = export_words b.
+Print Assumptions C16_api_histories.
+
+(* statistics file (C19's log round trip lifted through the wrapper; premise = the serde contract of a record on the records in the log, monitored by the harness): generate_stats_file of one linter is accepted by import_stats_file of any linter, appends exactly the first linter's records, changes nothing else, and a linter without records reproduces the file *)
+Theorem C16_stats_file_roundtrip :
+  forall (curated : config) (word_id : text -> N) (raw_lints : text -> language -> config -> dict -> nat -> list rlint) (ctx : rlint -> text -> language -> dict -> N)
+         (title_case : text -> text) (likely_english : text -> dict -> bool) (isolate : text -> dict -> text) (ser : stat_record -> JsonEscape.bytes) (de : JsonEscape.bytes -> option stat_record) (valid : stat_record -> Prop),
+  (forall r, valid r -> de (ser r) = Some r) -> (forall r, valid r -> Stats.line_ok (ser r)) ->
+  forall st st', Forall valid (s_stats st) ->
+  exists f, xstep curated word_id raw_lints ctx title_case likely_english isolate ser de st XGenerateStats = (st, XFile f)
+    /\ xstep curated word_id raw_lints ctx title_case likely_english isolate ser de st' (XImportStats f) = (set_stats st' (s_stats st' ++ s_stats st), XOut OUnit)
+    /\ same_but_stats (set_stats st' (s_stats st' ++ s_stats st)) st'
+    /\ (s_stats st' = [] ->
+        snd (xstep curated word_id raw_lints ctx title_case likely_english isolate ser de (set_stats st' (s_stats st' ++ s_stats st)) XGenerateStats) = XFile f).
+Proof. exact stats_file_roundtrip. Qed.
+Check C16_stats_file_roundtrip :
+  forall (curated : config) (word_id : text -> N) (raw_lints : text -> language -> config -> dict -> nat -> list rlint) (ctx : rlint -> text -> language -> dict -> N)
+         (title_case : text -> text) (likely_english : text -> dict -> bool) (isolate : text -> dict -> text) (ser : stat_record -> JsonEscape.bytes) (de : JsonEscape.bytes -> option stat_record) (valid : stat_record -> Prop),
+  (forall r, valid r -> de (ser r) = Some r) -> (forall r, valid r -> Stats.line_ok (ser r)) ->
+  forall st st', Forall valid (s_stats st) ->
+  exists f, xstep curated word_id raw_lints ctx title_case likely_english isolate ser de st XGenerateStats = (st, XFile f)
+    /\ xstep curated word_id raw_lints ctx title_case likely_english isolate ser de st' (XImportStats f) = (set_stats st' (s_stats st' ++ s_stats st), XOut OUnit)
+    /\ same_but_stats (set_stats st' (s_stats st' ++ s_stats st)) st'
+    /\ (s_stats st' = [] ->
+        snd (xstep curated word_id raw_lints ctx title_case likely_english isolate ser de (set_stats st' (s_stats st' ++ s_stats st)) XGenerateStats) = XFile f).
+Print Assumptions C16_stats_file_roundtrip.
+
+(* get_default_lint_config_as_json is the curated configuration; set_lint_config_from_json of it (on a linter whose configuration map is sorted — a BTreeMap), and Linter::new by itself, make the rules see exactly the curated choices during lint *)
+Theorem C16_default_config :
+  forall (curated : config) (word_id : text -> N) (raw_lints : text -> language -> config -> dict -> nat -> list rlint) (ctx : rlint -> text -> language -> dict -> N)
+         (title_case : text -> text) (likely_english : text -> dict -> bool) (isolate : text -> dict -> text) (ser : stat_record -> JsonEscape.bytes) (de : JsonEscape.bytes -> option stat_record) st dia k,
+  amap_sorted curated -> amap_sorted (s_cfg st) ->
+  snd (xstep curated word_id raw_lints ctx title_case likely_english isolate ser de st XGetDefaultConfig) = XOut (OConfig curated)
+  /\ (let st' := fst (step curated word_id raw_lints ctx st (CSetConfig (Some curated))) in
+      explicit k (cfg_fill_with_curated curated (s_cfg st')) = explicit k curated)
+  /\ explicit k (cfg_fill_with_curated curated (s_cfg (new curated dia))) = explicit k curated.
+Proof. exact default_config_is_default. Qed.
+Check C16_default_config :
+  forall (curated : config) (word_id : text -> N) (raw_lints : text -> language -> config -> dict -> nat -> list rlint) (ctx : rlint -> text -> language -> dict -> N)
+         (title_case : text -> text) (likely_english : text -> dict -> bool) (isolate : text -> dict -> text) (ser : stat_record -> JsonEscape.bytes) (de : JsonEscape.bytes -> option stat_record) st dia k,
+  amap_sorted curated -> amap_sorted (s_cfg st) ->
+  snd (xstep curated word_id raw_lints ctx title_case likely_english isolate ser de st XGetDefaultConfig) = XOut (OConfig curated)
+  /\ (let st' := fst (step curated word_id raw_lints ctx st (CSetConfig (Some curated))) in
+      explicit k (cfg_fill_with_curated curated (s_cfg st')) = explicit k curated)
+  /\ explicit k (cfg_fill_with_curated curated (s_cfg (new curated dia))) = explicit k curated.
+Print Assumptions C16_default_config.
+
+(* the enums of the JSON, from GENERATED tables (LintKind / Suggestion / Language variants with payload types; the name serde writes per variant; the names serde ACCEPTS with the variant each yields — the derive, or the arms of new_from_str under #[serde(try_from)]): they are the constructors of the model (all of them), the names print_rlint writes and the table parse_kind reads *)
+Theorem C16_enum_tables :
+  lint_kind_enum = map kind_name all_kinds
+  /\ (forall k, In k all_kinds)
+  /\ lint_kind_serialize = map (fun k => (kind_name k, kind_name k)) all_kinds
+  /\ lint_kind_deserialize = map (fun k => (kind_name k, kind_name k)) all_kinds
+  /\ suggestion_enum = [("ReplaceWith", "Vec<char>"); ("InsertAfter", "Vec<char>"); ("Remove", "")]
+  /\ (forall s, In (sugg_tag s) (map fst suggestion_enum))
+  /\ language_enum = map (fun l => (lang_name l, "")) all_languages
+  /\ (forall l, In l all_languages).
+Proof. exact enum_tables. Qed.
+Check C16_enum_tables :
+  lint_kind_enum = map kind_name all_kinds
+  /\ (forall k, In k all_kinds)
+  /\ lint_kind_serialize = map (fun k => (kind_name k, kind_name k)) all_kinds
+  /\ lint_kind_deserialize = map (fun k => (kind_name k, kind_name k)) all_kinds
+  /\ suggestion_enum = [("ReplaceWith", "Vec<char>"); ("InsertAfter", "Vec<char>"); ("Remove", "")]
+  /\ (forall s, In (sugg_tag s) (map fst suggestion_enum))
+  /\ language_enum = map (fun l => (lang_name l, "")) all_languages
+  /\ (forall l, In l all_languages).
+Print Assumptions C16_enum_tables.
+
+(* 'Lints, spans and suggestions survive their JSON round trip' variant by variant of the GENERATED tables: each listed LintKind name is a constructor that is written under that name, accepted under that name and read back in any lint; each listed Suggestion variant (any payload) and each Language likewise.  A variant the Rust enum gains or a name the deserialiser's table lacks (seed c16-4: Punctuation) leaves an obligation without witness *)
+Theorem C16_json_roundtrip_every_variant :
+  Forall (fun v => exists k, kind_name k = v
+                    /\ In (v, v) lint_kind_serialize /\ In (v, v) lint_kind_deserialize
+                    /\ forall l, rkind (winner l) = k -> rprio (winner l) <= 255 ->
+                                 lint_from_json (print_wlint l) = Some l) lint_kind_enum
+  /\ Forall (fun v => exists mk : text -> suggestion,
+                    (forall cs, sugg_tag (mk cs) = fst v)
+                    /\ (forall cs, suggestion_from_json (print_wsuggestion (mk cs)) = Some (mk cs))
+                    /\ (forall l cs, rprio (winner l) <= 255 -> In (mk cs) (rsugs (winner l)) ->
+                                     lint_from_json (print_wlint l) = Some l)) suggestion_enum
+  /\ Forall (fun v => exists g, lang_name g = fst v
+                    /\ forall l, wlang l = g -> rprio (winner l) <= 255 ->
+                                 lint_from_json (print_wlint l) = Some l) language_enum.
+Proof. exact json_roundtrip_every_variant. Qed.
+Check C16_json_roundtrip_every_variant :
+  Forall (fun v => exists k, kind_name k = v
+                    /\ In (v, v) lint_kind_serialize /\ In (v, v) lint_kind_deserialize
+                    /\ forall l, rkind (winner l) = k -> rprio (winner l) <= 255 ->
+                                 lint_from_json (print_wlint l) = Some l) lint_kind_enum
+  /\ Forall (fun v => exists mk : text -> suggestion,
+                    (forall cs, sugg_tag (mk cs) = fst v)
+                    /\ (forall cs, suggestion_from_json (print_wsuggestion (mk cs)) = Some (mk cs))
+                    /\ (forall l cs, rprio (winner l) <= 255 -> In (mk cs) (rsugs (winner l)) ->
+                                     lint_from_json (print_wlint l) = Some l)) suggestion_enum
+  /\ Forall (fun v => exists g, lang_name g = fst v
+                    /\ forall l, wlang l = g -> rprio (winner l) <= 255 ->
+                                 lint_from_json (print_wlint l) = Some l) language_enum.
+Print Assumptions C16_json_roundtrip_every_variant.
+
 (* ---------- non-vacuity: the hypotheses are satisfiable on non-trivial inputs ---------- *)
 Definition ex_raw (t : text) (lg : language) (c : config) (d : dict) (n : nat) : list rlint :=
   [mkrl (mkspan 2 6) Style [] [] 31; mkrl (mkspan 0 4) Spelling [ReplaceWith [97%N]] [34%N; 10%N] 63;
@@ -418,6 +668,62 @@ Example C16_words_roundtrip_nonvacuous :
   /\ api_lint cur ex_raw_cfg toy_ctx st [97; 98]%N Plain = api_lint cur ex_raw_cfg toy_ctx st2 [97; 98]%N Plain
   /\ api_lint cur ex_raw_cfg toy_ctx st [65; 66]%N Plain = api_lint cur ex_raw_cfg toy_ctx st2 [65; 66]%N Plain.
 Proof. vm_compute. repeat split; try reflexivity. discriminate. Qed.
+
+(* the instantiated context on a concrete document: "zz a" = word, space, word; the user dictionary decides the
+   metadata of `zz` (so the two documents DIFFER), the lint on `a` has `zz` within two characters, its context
+   and its hash are nevertheless the same; in a history lint / ignore / import_words [zz] / lint the rule
+   reports the lint again (the raw lints are unchanged), the lint dictionary has changed, the answer is empty *)
+Definition ex_pre (t : text) (lg : language) : list token :=
+  [mktok (mkspan 0 2) (KWord None); mktok (mkspan 2 3) (KSpace 1); mktok (mkspan 3 4) (KWord None)].
+Definition ex_meta (d : dict) (w : text) : option N :=
+  if existsb (fun kw => Wasm.text_eqb (snd kw) w) d then Some 7%N
+  else if Wasm.text_eqb w [97%N] then Some 1%N else None.
+Definition ex_hash (c : Ignore.ctx) : N := (1 + c_prio c + 1000 * N.of_nat (length (c_toks c)) + 100000 * c_kind c)%N.
+Definition ex_raw_a (t : text) (lg : language) (c : config) (d : dict) (n : nat) : list rlint :=
+  [mkrl (mkspan 3 4) Style [Remove] [33%N] 31].
+Example C16_context_nonvacuous :
+  let t := [122; 122; 32; 97]%N in
+  let l := mkrl (mkspan 3 4) Style [Remove] [33%N] 31 in
+  let d := [(2%N, [122; 122]%N)] in
+  (forall t lang, Forall (fun tok => span_in (length t) (tspan tok)) (ex_pre t lang) \/ length t < 4)
+  /\ document ex_pre ex_meta t Plain [] <> document ex_pre ex_meta t Plain d
+  /\ context_of ex_pre ex_meta l t Plain []
+     = Ok (mkctx 2 [Remove] [33%N] 31 [(KWord None, [122; 122]%N); (KSpace 1, [32%N]); (KWord None, [97%N])])
+  /\ context_of ex_pre ex_meta l t Plain d = context_of ex_pre ex_meta l t Plain []
+  /\ ctx_inst ex_pre ex_meta ex_hash l t Plain d = 203032%N
+  /\ snd (run [] toy_word_id ex_raw_a (ctx_inst ex_pre ex_meta ex_hash) (new [] 0)
+            [CLint t Plain; CIgnore t (mkwl l [97%N] Plain); CImportWords [[122; 122]%N]; CLint t Plain; CExportWords])
+     = [OLints [mkwl l [97%N] Plain]; OUnit; OUnit; OLints []; OWords [[122; 122]%N]].
+Proof.
+  cbv zeta. split; [|split; [|split; [|split; [|split]]]].
+  - intros t lang. destruct (Nat.ltb (length t) 4) eqn:E; [right; now apply Nat.ltb_lt|left].
+    apply Nat.ltb_ge in E. unfold ex_pre. repeat constructor; cbn [tspan sstart send]; lia.
+  - vm_compute. discriminate.
+  - vm_compute. reflexivity.
+  - vm_compute. reflexivity.
+  - vm_compute. reflexivity.
+  - vm_compute. reflexivity.
+Qed.
+
+(* the whole API on a concrete history: statistics written by one linter and imported into a second one (serde of a
+   record = its span start as one byte: a contract-satisfying toy), the other exports interleaved; lint answers as
+   in the history of the Model/Wasm.v calls alone *)
+Definition ex_ser (r : stat_record) : JsonEscape.bytes := [N.of_nat (sstart (sr_span r)) + 65]%N.
+Definition ex_de (b : JsonEscape.bytes) : option stat_record :=
+  match b with [c] => Some (mkrec Spelling (mkspan (N.to_nat (c - 65)) 4) ex_text Plain []) | _ => None end.
+Example C16_api_nonvacuous :
+  let l := mkwl (mkrl (mkspan 0 4) Spelling [ReplaceWith [97%N]] [34%N; 10%N] 63) [97; 98; 99; 100]%N Plain in
+  let X := xrun [] toy_word_id ex_raw ex_ctx (fun t => t) (fun _ _ => true) (fun t _ => t) ex_ser ex_de in
+  let '(st, os) := X (new [] 0) [XBase (CLint ex_text Plain); XToTitleCase [97%N]; XBase (CApply ex_text l (ReplaceWith [97%N]));
+                                 XIsLikelyEnglish ex_text; XGenerateStats; XGetDefaultConfig] in
+  match os with
+  | [XOut (OLints a); XOut (OText [97%N]); XOut (OText _); XBool true; XFile f; XOut (OConfig [])] =>
+      length a = 3 /\ f = [65; 10]%N
+      /\ snd (X (new [] 1) [XImportStats f; XImportStats [66; 66; 10]%N; XGenerateStats; XBase CGetStats])
+         = [XOut OUnit; XOut OErr; XFile f; XOut (OStats [mkrec Spelling (mkspan 0 4) ex_text Plain []])]
+  | _ => False
+  end.
+Proof. vm_compute. repeat split. Qed.
 
 (* HISTORY — the OLD import_words (synchronise only when the word count grew; before fix ba0a239, finding
    C16-F15) refuted the words round trip: regression witness over Wasm.import_words_old, which is no longer
